@@ -554,13 +554,12 @@ cpc_sketch_alloc<A> cpc_sketch_alloc<A>::deserialize(std::istream& is, uint64_t 
       hip_est_accum = read<double>(is);
     }
     if (!is.good()) throw std::runtime_error("error reading from std::istream");
+    // the word counts are not trusted: the buffers grow as the data arrives
     if (has_window) {
-      compressed.window_data.resize(compressed.window_data_words);
-      read(is, compressed.window_data.data(), compressed.window_data_words * sizeof(uint32_t));
+      read(is, compressed.window_data, compressed.window_data_words);
     }
     if (has_table) {
-      compressed.table_data.resize(compressed.table_data_words);
-      read(is, compressed.table_data.data(), compressed.table_data_words * sizeof(uint32_t));
+      read(is, compressed.table_data, compressed.table_data_words);
     }
     if (!has_window) compressed.table_num_entries = num_coupons;
   }
@@ -649,13 +648,13 @@ cpc_sketch_alloc<A> cpc_sketch_alloc<A>::deserialize(const void* bytes, size_t s
       ptr += copy_from_mem(ptr, hip_est_accum);
     }
     if (has_window) {
-      compressed.window_data.resize(compressed.window_data_words);
       check_memory_size(ptr - base + (compressed.window_data_words * sizeof(uint32_t)), size);
+      compressed.window_data.resize(compressed.window_data_words);
       ptr += copy_from_mem(ptr, compressed.window_data.data(), compressed.window_data_words * sizeof(uint32_t));
     }
     if (has_table) {
-      compressed.table_data.resize(compressed.table_data_words);
       check_memory_size(ptr - base + (compressed.table_data_words * sizeof(uint32_t)), size);
+      compressed.table_data.resize(compressed.table_data_words);
       ptr += copy_from_mem(ptr, compressed.table_data.data(), compressed.table_data_words * sizeof(uint32_t));
     }
     if (!has_window) compressed.table_num_entries = num_coupons;
